@@ -37,20 +37,33 @@ def main():
     if out.strip():
         print("refusing: /repo has uncommitted changes:\n" + out)
         return 2
-    ver = dict(at=time.strftime("%Y-%m-%d %H:%M:%S"), repo_head=sh(["git", "-C", REPO, "rev-parse", "--short", "HEAD"])[1].strip())
-    rc, out = sh(["/venv/bin/python", str(d / "demo.py"), REPO])
-    ver["demo_on_unchanged"] = rc
+    head = sh(["git", "-C", REPO, "rev-parse", "--short", "HEAD"])[1].strip()
+    checks_only = "--checks-only" in sys.argv
+    old = meta.get("verification", {})
+    if checks_only and not (old.get("repo_head") == head and old.get("demo_on_unchanged") == 0 and old.get("tests_pass") and old.get("demo_on_patched") == 1):
+        print("no stored confirmation for this /repo HEAD: running the full confirmation")
+        checks_only = False
+    ver = dict(at=time.strftime("%Y-%m-%d %H:%M:%S"), repo_head=head)
+    if checks_only:
+        # the confirmation (demo on both trees, test-suite with the patch) was made at this /repo HEAD and is kept
+        for k in ("demo_on_unchanged", "tests_on_patched", "tests_pass", "demo_on_patched"):
+            ver[k] = old[k]
+        ver["confirmed_at"] = old.get("confirmed_at", old.get("at"))
+    else:
+        rc, out = sh(["/venv/bin/python", str(d / "demo.py"), REPO])
+        ver["demo_on_unchanged"] = rc
     try:
         rc, out = sh(["git", "-C", REPO, "apply", str(d / "patch.diff")])
         if rc != 0:
             ver["apply"] = out[-400:]
             print("patch does not apply:", out)
             return 2
-        rc, out = sh(["/venv/bin/python", "-m", "pytest", "-q", "-p", "no:cacheprovider", "tests"], cwd=REPO)
-        ver["tests_on_patched"] = out.strip().split("\n")[-1]
-        ver["tests_pass"] = rc == 0
-        rc, out = sh(["/venv/bin/python", str(d / "demo.py"), REPO])
-        ver["demo_on_patched"] = rc
+        if not checks_only:
+            rc, out = sh(["/venv/bin/python", "-m", "pytest", "-q", "-p", "no:cacheprovider", "tests"], cwd=REPO)
+            ver["tests_on_patched"] = out.strip().split("\n")[-1]
+            ver["tests_pass"] = rc == 0
+            rc, out = sh(["/venv/bin/python", str(d / "demo.py"), REPO])
+            ver["demo_on_patched"] = rc
         ver["checks_on_patched"] = {}
         for c in checks:
             rc, out = sh([str(ROOT / "check"), c], cwd=ROOT)
